@@ -14,7 +14,7 @@ c04select tol u32(center) opt(u32 offset) [n peak…]          |  0 | 1 u32(mass
 score1 [k kind…] min_ion_index bucket [p pep…]               database (peptides ascending in monoisotopic mass)
        tol(fragment) tol(precursor) opt(max_fragment_charge) min_isotope_err max_isotope_err
        openms annotate min_matched_peaks
-       u32(precursor m/z) opt(precursor_charge) min_precursor_charge max_precursor_charge
+       u32(precursor m/z) charge(0 | 1 z | 2 z = annotated + override_precursor_charge) min_precursor_charge max_precursor_charge
        u32(total_ion_current) [n peak…]
    |  [f feature…]   sorted by (peptide index, charge, isotope error)   |  panic
 feature  := pep_ix u32(isotope_error) peptide_len charge u32(expmass) u32(calcmass) u32(delta_mass)
@@ -36,8 +36,9 @@ NaNs are canonicalised on both sides (every NaN prints as the default quiet NaN)
 linear-scan window `specSelect`, `specVals`, `specLongest`, `specHyperscore`, `feature`) and compared field by
 field — sums are formed in the order of the property's enumeration (kinds, ion index, charge), which is the
 code's order, so they are compared bit-exactly; hyperscore/poisson with the allowances above. `longest_b/y` are
-checked against `specLongest` when at most one configured kind feeds the terminus' counter (with several kinds
-per terminus the shared counter sees restarting index sequences: modelled and compared, not specified).
+checked against `specLongest` (longest block of consecutive matched indices) when at most one configured kind
+feeds the terminus' counter, and against `specLongestSeq` (longest contiguous ladder in the concatenation of the
+kinds' index sequences, in configuration order) when several kinds share it.
 `na`: a negative or NaN intensity / NaN mass in the spectrum (outside the property's domain: intensities ≥ 0).
 -/
 namespace Sage.C04
@@ -149,6 +150,8 @@ structure Req where
   minMatched : Nat
   precMz : Float32
   z : Option Nat
+  /-- `override_precursor_charge`: search `min..=max` although the charge is annotated -/
+  overrideZ : Bool
   minPc : Nat
   maxPc : Nat
   tic : Float32
@@ -173,7 +176,11 @@ def pReq : P Req := do
   let annotate ← bool
   let minMatched ← nat
   let precMz ← f32
-  let z ← opt nat
+  -- `0` = not annotated, `1 z` = annotated, `2 z` = annotated and `override_precursor_charge = true`
+  let tag ← nat
+  let z ← (if tag == 0 then pure none else do let z ← nat; pure (some z))
+  let overrideZ := tag == 2
+  if tag > 2 then failure
   let minPc ← nat
   let maxPc ← nat
   let tic ← f32
@@ -181,13 +188,13 @@ def pReq : P Req := do
   match allSomeK (kindNs.map Kind.ofNat?) with
   | none => failure
   | some kinds =>
-    pure { kinds, minIdx, raws, ftol, ptol, mfcCfg, isoLo, isoHi, openms, annotate, minMatched, precMz, z, minPc, maxPc, tic, peaks }
+    pure { kinds, minIdx, raws, ftol, ptol, mfcCfg, isoLo, isoHi, openms, annotate, minMatched, precMz, z, overrideZ, minPc, maxPc, tic, peaks }
 
-/-- the precursor charges `initial_hits` searches: the annotated one, else `min..=max` -/
+/-- the precursor charges `initial_hits` searches: the annotated one (unless overridden), else `min..=max` -/
 def Req.charges (r : Req) : List Nat :=
-  match r.z with
-  | some z => [z]
-  | none => List.range' r.minPc (r.maxPc + 1 - r.minPc)
+  match r.z, r.overrideZ with
+  | some z, false => [z]
+  | _, _ => List.range' r.minPc (r.maxPc + 1 - r.minPc)
 
 /-- requests the model covers: well-formed peptides (C09 domain), ascending peptide masses, ascending peak
     masses, no NaN mass, small charges -/
@@ -232,7 +239,6 @@ def compute (r : Req) (useSpec : Bool) : List (Feat Float32 Float) :=
     | some p =>
       let n := p.residues.length
       let mfc := maxFragmentCharge r.mfcCfg pre.charge
-      let pm := mz * Float32.ofNat pre.charge
       let series := r.kinds.map (fun k => (k, Sage.C09.ions constsF k p))
       let fzs := fragCharges series mfc
       let s : Scored Float32 Float :=
@@ -242,14 +248,18 @@ def compute (r : Req) (useSpec : Bool) : List (Feat Float32 Float) :=
             specSelect r.peaks b.1 b.2
           let v : SpecVals Float32 Float := specVals E32 n (specMatches E32 sel fzs)
           { matchedB := v.nb, matchedY := v.ny, summedB := v.ib, summedY := v.iy,
-            longestB := specLongest v.idxB, longestY := specLongest v.idxY,
+            -- one kind per terminus: the longest block of consecutive matched indices (`longest_spec`);
+            -- several kinds sharing the counter: the longest contiguous ladder of the concatenated sequence
+            -- (`longest_seq_spec`; the two coincide on ascending sequences, `run_spec_exec`/`run_seq_spec`)
+            longestB := if r.multiN then specLongestSeq v.idxB else specLongest v.idxB,
+            longestY := if r.multiC then specLongestSeq v.idxY else specLongest v.idxY,
             hyperscore := if r.openms then scoreOf E32 true v.nb v.ny v.ib v.iy else specHyperscore E32 v.nb v.ny v.ib v.iy,
             ppm := v.ppmNum / (v.ib + v.iy),
             ann := if r.annotate then some v.rows else none }
         else
           scoreCandidate E32 (fun mz => select E32 peakArr mz r.ftol none) series n mfc r.openms r.annotate
       if s.matchedB + s.matchedY ≥ r.minMatched then
-        some (feature E32 pre s n pre.charge pm p.mass r.tic total nScored)
+        some (feature E32 pre s n r.precMz p.mass r.tic total nScored)
       else none
 
 def renderFeats (openms : Bool) (fs : List (Feat Float32 Float)) : List Tk :=
@@ -289,8 +299,7 @@ def fieldNames : List String :=
 /-- compare one implementation feature (tokens) with the spec's feature; name of the first bad clause -/
 def featClause (r : Req) (want : Feat Float32 Float) (got : List String) : Option String :=
   let wt := featToks r.openms want
-  let skip (name : String) : Bool :=
-    (name == "longest_b" && r.multiN) || ((name == "longest_y" || name == "longest_y_pct") && r.multiC)
+  let skip (_name : String) : Bool := false
   let rec go : List Tk → List String → Nat → Option String
     | [], [], _ => none
     | (c, m) :: ms, i :: is, k =>
